@@ -1,6 +1,7 @@
 import OrsoVerif.Lemmas.Profile
 import OrsoVerif.Lemmas.ProfileOrder
 import OrsoVerif.Lemmas.ProfileTime
+import OrsoVerif.Lemmas.ProfileGlue
 /-!
 # C15 — Column profiles report exact counts, extremes and frequencies
 
@@ -1199,5 +1200,118 @@ theorem table_add_expressions (le : α → α → Bool) (key : α → Int) (h : 
   · simp only [addColumnOpt, Gen.ProfileTable.leftMissing, hk, if_true]
     rw [hb]
   · simp only [addColumnOpt]; rw [add_core le key h hm a b]
+
+/-! ## The glue: operands of a sum stay what they were; morsel profiles are matched up by column name -/
+
+/-- **Morsel loop, generated key** (`Gen.ProfileGlue.accumulatorKey`, from `profiles[K]` in
+`TableProfile.from_dataframe`): the accumulator of a column is found again in the next morsel whatever the identity of
+the column object that morsel brings (same name ⇒ same key), two columns never share one (different names ⇒
+different keys).  (Whether a column without cells is passed over — `Gen.ProfileGlue.skipsEmptyColumn` — does not matter
+to the theorems below: `to_batches` yields no morsel without rows.) -/
+theorem morsel_accumulator_expressions (c d : MCol α) :
+    (c.name = d.name → keyOf Gen.ProfileGlue.accumulatorKey c = keyOf Gen.ProfileGlue.accumulatorKey d) ∧
+    (c.name ≠ d.name → keyOf Gen.ProfileGlue.accumulatorKey c ≠ keyOf Gen.ProfileGlue.accumulatorKey d) := by
+  refine ⟨fun h => ?_, fun h h' => ?_⟩
+  · show Key.byName c.name = Key.byName d.name
+    rw [h]
+  · have h'' : Key.byName c.name = Key.byName d.name := h'
+    exact h (Key.byName.inj h'')
+
+/-- Non-vacuity of the morsel theorems: two morsels of a frame whose schema is a list of names — the loop makes new
+column objects (identities 1, 2 then 3, 4) for each — end in one entry per column, the counts added up. -/
+example :
+    fromDataframe Gen.ProfileGlue.accumulatorKey Gen.ProfileGlue.skipsEmptyColumn (fun c : MCol Nat => c.data.length) (· + ·)
+      [[⟨"a", 1, [some 0, none]⟩, ⟨"b", 2, [none, none]⟩], [⟨"a", 3, [some 5]⟩, ⟨"b", 4, [some 7]⟩]]
+      = [(Key.byName "a", 3), (Key.byName "b", 3)] := by decide
+
+/-- **Count = number of rows above the morsel size, for every way a frame is bound to its schema** (clause 1 through
+`from_dataframe`'s loop).  For every number of morsels, every list of distinct column names and *any* identities of the
+column objects the morsels bring (shared, as for a `RelationSchema`, or new in every morsel, as for a schema that is a
+list of names): the loop ends with exactly one entry per column, in column order, and each entry holds the profiles of
+that column's morsels added up in morsel order (`columnSums`). -/
+theorem from_dataframe_one_entry_per_column (prof : MCol α → P) (add : P → P → P) (names : List String)
+    (hn : names.Nodup) (m : List (MCol α)) (ms : List (List (MCol α)))
+    (hshape : ∀ m' ∈ m :: ms, m'.map (·.name) = names)
+    (hrows : ∀ m' ∈ m :: ms, ∀ c ∈ m', c.data ≠ []) :
+    fromDataframe Gen.ProfileGlue.accumulatorKey Gen.ProfileGlue.skipsEmptyColumn prof add (m :: ms)
+      = List.zipWith Prod.mk (names.map Key.byName) (columnSums prof add m ms) :=
+  fromDataframe_by_name Gen.ProfileGlue.skipsEmptyColumn prof add names hn m ms hshape hrows
+
+/-- … and the count of every entry is the number of rows of the frame: `rows m'` cells in every column of morsel
+`m'`, no morsel without rows (`to_batches_expressions`). -/
+theorem from_dataframe_counts_rows (rows : List (MCol α) → Nat) (names : List String)
+    (hn : names.Nodup) (m : List (MCol α)) (ms : List (List (MCol α)))
+    (hshape : ∀ m' ∈ m :: ms, m'.map (·.name) = names)
+    (hcells : ∀ m' ∈ m :: ms, ∀ c ∈ m', c.data.length = rows m')
+    (hpos : ∀ m' ∈ m :: ms, 0 < rows m') :
+    fromDataframe Gen.ProfileGlue.accumulatorKey Gen.ProfileGlue.skipsEmptyColumn (fun c : MCol α => c.data.length) (· + ·) (m :: ms)
+      = names.map (fun nm => (Key.byName nm, rows m + (ms.map rows).sum)) := by
+  have hrows : ∀ m' ∈ m :: ms, ∀ c ∈ m', c.data ≠ [] := by
+    intro m' hm' c hc hnil
+    have h1 := hcells m' hm' c hc
+    have h2 := hpos m' hm'
+    rw [hnil] at h1
+    simp at h1
+    omega
+  rw [from_dataframe_one_entry_per_column _ _ names hn m ms hshape hrows]
+  rw [columnSums_counts rows names.length m ms
+    (fun m' hm' => by have := congrArg List.length (hshape m' hm'); simpa using this) hcells]
+  apply List.ext_getElem (by simp)
+  intro i h1 h2
+  simp
+
+/-- **What a key by identity does** (the seeded change C15-w6s3): the same two morsels of a frame whose schema is a
+list of names, accumulators keyed by `column.identity` — no morsel profile is ever added to another: two entries per
+column, each with the count of one morsel. -/
+theorem identity_key_splits_morsels :
+    fromDataframe KeyKind.identity true (fun c : MCol Nat => c.data.length) (· + ·)
+      [[⟨"a", 1, [some 0, none]⟩], [⟨"a", 2, [some 5]⟩]] = [(Key.byIdent 1, 2), (Key.byIdent 2, 1)] ∧
+    fromDataframe KeyKind.name true (fun c : MCol Nat => c.data.length) (· + ·)
+      [[⟨"a", 1, [some 0, none]⟩], [⟨"a", 2, [some 5]⟩]] = [(Key.byName "a", 3)] := by decide
+
+/-- **Operands of a sum are not changed** (additivity, the profiles being used again).  The histogram part of
+`ColumnProfile.__add__` over a heap of list objects, with what the source copies **generated**
+(`Gen.ProfileGlue.loadCopiesBins`: `distogram.load` makes its own list; `sumStartsFromCopy`: the sum starts from
+`self.deep_copy()`; `sumCopiesOtherHistogram` may be either — a kept histogram that is shared but never written to is
+harmless) and whatever `distogram.merge` writes into its first argument (`mrg`): no list that existed before the
+addition — the operands' histograms among them — is changed, and the sum's histogram holds the merge into the longer
+histogram, or the only histogram there is. -/
+theorem sum_leaves_operands (mrg : β → β → β) (len : β → Nat) (h : Heap β) (self other : Nat)
+    (hs : self < h.next) (ho : other < h.next) :
+    let r := addHist Gen.ProfileGlue.loadCopiesBins Gen.ProfileGlue.sumStartsFromCopy
+      Gen.ProfileGlue.sumCopiesOtherHistogram mrg len h self other
+    (∀ q, q < h.next → r.2.get q = h.get q) ∧
+    r.2.get r.1 = addHistSpec mrg len (h.get self) (h.get other) := by
+  have := addHist_copies Gen.ProfileGlue.sumCopiesOtherHistogram mrg len h self other hs ho
+  exact ⟨this.1, this.2.2.2⟩
+
+/-- … so the same two profiles added a second time give the same histogram. -/
+theorem sum_twice_same (mrg : β → β → β) (len : β → Nat) (h : Heap β) (self other : Nat)
+    (hs : self < h.next) (ho : other < h.next) :
+    let r1 := addHist Gen.ProfileGlue.loadCopiesBins Gen.ProfileGlue.sumStartsFromCopy
+      Gen.ProfileGlue.sumCopiesOtherHistogram mrg len h self other
+    let r2 := addHist Gen.ProfileGlue.loadCopiesBins Gen.ProfileGlue.sumStartsFromCopy
+      Gen.ProfileGlue.sumCopiesOtherHistogram mrg len r1.2 self other
+    r2.2.get r2.1 = r1.2.get r1.1 ∧ r2.2.get r1.1 = r1.2.get r1.1 := by
+  have a := addHist_copies Gen.ProfileGlue.sumCopiesOtherHistogram mrg len h self other hs ho
+  have hs' := Nat.lt_of_lt_of_le hs a.2.1
+  have ho' := Nat.lt_of_lt_of_le ho a.2.1
+  have b := addHist_copies Gen.ProfileGlue.sumCopiesOtherHistogram mrg len
+    (addHist true true Gen.ProfileGlue.sumCopiesOtherHistogram mrg len h self other).2 self other hs' ho'
+  refine ⟨?_, ?_⟩
+  · have e := b.2.2.2
+    rw [a.1 self hs, a.1 other ho, ← a.2.2.2] at e
+    exact e
+  · exact b.1 _ a.2.2.1
+
+/-- **What a `load` that keeps the list does** (the seeded change C15-w6s1): two batches of one value each, merge =
+"the bins of both"; after the addition the left operand's own histogram counts both batches, and the same two profiles
+added again count one batch twice. -/
+theorem aliased_load_changes_operand :
+    let h : Heap (List (Int × Nat)) := { next := 2, get := fun r => if r = 0 then [(0, 1)] else if r = 1 then [(5, 1)] else [] }
+    let r1 := addHist false true true (· ++ ·) List.length h 0 1
+    let r2 := addHist false true true (· ++ ·) List.length r1.2 0 1
+    r1.2.get r1.1 = [(0, 1), (5, 1)] ∧ r1.2.get 0 = [(0, 1), (5, 1)] ∧ h.get 0 = [(0, 1)] ∧
+    r2.2.get r2.1 = [(0, 1), (5, 1), (5, 1)] := by decide
 
 end C15
